@@ -13,6 +13,11 @@ Hypothesis Hdiv : forall u c : T, u / c = (none_ / c) * u.
 Hypothesis Heqb : forall a b : T, (a =? b) = true -> a = b.
 Hypothesis Heqb_refl : forall a : T, (a =? a) = true.
 Add Ring Tring2 : Rth.
+Variable vt : variant.
+Notation olin := (olin vt).
+Notation mul_c := (mul_c vt).
+Notation add_c := (add_c vt).
+Notation build := (build vt).
 Notation vec := (list T).
 Notation oexpr := (oexpr T).
 Notation sexpr := (sexpr T).
@@ -40,7 +45,7 @@ Fixpoint wf (o : oexpr) : Prop :=
   | OConst d _ | OZero d => exists n, d = SV n
   | OSum fn a b => wf a /\ wf b /\ oran a = oran b /\ odom a = odom b /\ (fn = true -> ofunc a = true)
   | OScalSum a _ => wf a /\ ofunc a = true
-  | OVecSum a v => wf a /\ oran a = SV (length v)
+  | OVecSum a v => wf a /\ dim (oran a) = length v
   | OComp fn a b => wf a /\ wf b /\ oran b = odom a /\ (fn = true -> ofunc a = true)
   | OLScal fn a _ | ORScal fn a _ => wf a /\ (fn = true -> ofunc a = true)
   | OLVec a v => wf a /\ oran a = SV (length v)
@@ -123,7 +128,7 @@ Qed.
 Lemma olin_hom o : wf o -> olin o = true -> homog (eval o) (dim (odom o)).
 Proof.
   induction o as [l|d c|d|fn a IHa b IHb|a IHa c|a IHa v|fn a IHa b IHb|fn a IHa c|fn a IHa c
-                 |a IHa v|fn a IHa v|a IHa v|a IHa b IHb]; cbn [wf odom olin eval]; intros W L k x Hx;
+                 |a IHa v|fn a IHa v|a IHa v|a IHa b IHb]; cbn [wf odom Model.olin eval]; intros W L k x Hx;
     try discriminate.
   - apply (lk_hom _ W L k x Hx).
   - apply Heqb in L; subst c. cbn. f_equal. ring.
@@ -137,8 +142,9 @@ Proof.
   - destruct W as (Wa & _). rewrite (IHa Wa L k x Hx). apply (vscal_comm Rth).
   - destruct W as (Wa & _). rewrite (vscal_comm Rth). apply (IHa Wa L). rewrite vscal_length; auto.
   - destruct W as (Wa & _). rewrite (IHa Wa L k x Hx). apply (vscal_vmul_l Rth).
-  - destruct fn; [discriminate|]. destruct W as (Wa & Ed & _).
-    rewrite (vscal_vmul_l Rth). apply (IHa Wa L). unfold vmul; rewrite vmap2_length, Hx, Ed. cbn [dim].
+  - assert (La : olin a = true) by (destruct fn; [apply andb_true_iff in L; tauto | exact L]).
+    destruct W as (Wa & Ed & _).
+    rewrite (vscal_vmul_l Rth). apply (IHa Wa La). unfold vmul; rewrite vmap2_length, Hx, Ed. cbn [dim].
     apply Nat.min_id.
   - destruct W as (Wa & Er). rewrite (IHa Wa L k x Hx).
     rewrite (eval_SF_singleton a x Wa Er Hx). cbn [vscal map scalar_of hd].
@@ -152,7 +158,7 @@ Proof. intros Hx Hy. unfold vadd. rewrite vmap2_length, Hx, Hy. apply Nat.min_id
 Lemma olin_add o : wf o -> olin o = true -> additive (eval o) (dim (odom o)).
 Proof.
   induction o as [l|d c|d|fn a IHa b IHb|a IHa c|a IHa v|fn a IHa b IHb|fn a IHa c|fn a IHa c
-                 |a IHa v|fn a IHa v|a IHa v|a IHa b IHb]; cbn [wf odom olin eval]; intros W L x y Hx Hy;
+                 |a IHa v|fn a IHa v|a IHa v|a IHa b IHb]; cbn [wf odom Model.olin eval]; intros W L x y Hx Hy;
     try discriminate.
   - apply (lk_add _ W L x y Hx Hy).
   - apply Heqb in L; subst c. cbn. f_equal. ring.
@@ -167,9 +173,10 @@ Proof.
   - destruct W as (Wa & _). rewrite (IHa Wa L x y Hx Hy). apply (vscal_vadd Rth).
   - destruct W as (Wa & _). rewrite (vscal_vadd Rth). apply (IHa Wa L); rewrite vscal_length; assumption.
   - destruct W as (Wa & _). rewrite (IHa Wa L x y Hx Hy). apply (vmul_vadd_l Rth).
-  - destruct fn; [discriminate|]. destruct W as (Wa & Ed & _).
+  - assert (La : olin a = true) by (destruct fn; [apply andb_true_iff in L; tauto | exact L]).
+    destruct W as (Wa & Ed & _).
     rewrite (vmul_vadd_l Rth).
-    apply (IHa Wa L); unfold vmul; rewrite vmap2_length, ?Hx, ?Hy, Ed; cbn [dim]; apply Nat.min_id.
+    apply (IHa Wa La); unfold vmul; rewrite vmap2_length, ?Hx, ?Hy, Ed; cbn [dim]; apply Nat.min_id.
   - destruct W as (Wa & Er). rewrite (IHa Wa L x y Hx Hy).
     rewrite (eval_SF_singleton a x Wa Er Hx), (eval_SF_singleton a y Wa Er Hy).
     cbn [vadd vmap2 scalar_of hd]. apply (vscal_add_l Rth).
@@ -255,7 +262,7 @@ Qed.
 Lemma mul_c_sem a c o : wf a -> mul_c a c = Ok o ->
   sem o (odom a) (oran a) (fun x => eval a (vscal c x)).
 Proof.
-  intros W E. unfold mul_c in E. destruct (ofunc a) eqn:F.
+  intros W E. unfold Model.mul_c in E. destruct (ofunc a) eqn:F.
   - destruct (c =? nzero) eqn:Z.
     + apply Heqb in Z; subst c. inversion E; subst o. sem_split; cbn [wf odom oran].
       * apply dom_sv; auto.
@@ -337,21 +344,26 @@ Proof.
   intros W E. unfold add_v in E. destruct (in_sp v (oran a)) eqn:I; [|discriminate].
   apply in_sp_eq in I. unfold mkVecSum in E. rewrite I in E. inversion E; subst o.
   split; [|assumption]. sem_split; cbn [wf odom oran]; auto.
+  split; [assumption|]. rewrite I. reflexivity.
 Qed.
 
 (* A + c *)
 Lemma add_c_sem a c o : wf a -> add_c a c = Ok o ->
   sem o (odom a) (oran a) (fun x => map (fun u => u + c) (eval a x)).
 Proof.
-  intros W E. unfold add_c in E. destruct (ofunc a) eqn:F.
+  intros W E. unfold Model.add_c in E. destruct (ofunc a) eqn:F.
   - inversion E; subst o. sem_split; cbn [wf odom oran]; auto.
     + symmetry; apply func_ran; auto.
     + intros x Hx. cbn [eval]. rewrite (eval_func_singleton a x W F Hx). reflexivity.
-  - destruct (oran a) eqn:R; [|discriminate]. inversion E; subst o.
-    sem_split; cbn [wf odom oran]; auto.
-    + split; [assumption|]. rewrite vscal_length. unfold vone. rewrite repeat_length. assumption.
-    + intros x Hx. cbn [eval]. apply (vadd_const Rth).
-      rewrite (eval_length a W x Hx), R. reflexivity.
+  - destruct (oran a) eqn:R.
+    + inversion E; subst o. sem_split; cbn [wf odom oran]; auto.
+      * split; [assumption|]. rewrite vscal_length. unfold vone. rewrite repeat_length, R. reflexivity.
+      * intros x Hx. cbn [eval]. apply (vadd_const Rth).
+        rewrite (eval_length a W x Hx), R. reflexivity.
+    + destruct (v_vecsum_field vt); [|discriminate]. inversion E; subst o.
+      sem_split; cbn [wf odom oran]; auto.
+      * split; [assumption|]. rewrite R. reflexivity.
+      * intros x Hx. cbn [eval]. rewrite (eval_SF_singleton a x W R Hx). reflexivity.
 Qed.
 
 (* A ** n *)
@@ -441,7 +453,7 @@ Proof.
   induction s as [l|d c|d|a IHa b IHb|a IHa b IHb|a IHa b IHb|a IHa|a IHa n|a IHa v|v a IHa|a IHa v
                  |v a IHa|a IHa v|v a IHa|a IHa c|c a IHa|a IHa c|c a IHa|a IHa c|c a IHa|a IHa c
                  |a IHa b IHb];
-    intros o L E; cbn [build] in E; cbn [sleaves_ok] in L; cbn [sdom sran denote].
+    intros o L E; cbn [Model.build] in E; cbn [sleaves_ok] in L; cbn [sdom sran denote].
   - (* leaf *) inversion E; subst o. sem_split; cbn [wf odom oran eval]; auto.
   - inversion E; subst o. sem_split; cbn [wf odom oran eval]; auto.
   - inversion E; subst o. sem_split; cbn [wf odom oran eval]; auto.
@@ -587,9 +599,9 @@ Qed.
 
 Lemma mul_c_lin a c o : wf a -> mul_c a c = Ok o -> olin a = true -> olin o = true.
 Proof.
-  unfold mul_c, mkFLScal, mkFRScal. intros W E La. rewrite La in E. destruct (ofunc a) eqn:F.
+  unfold Model.mul_c, mkFLScal, mkFRScal. intros W E La. rewrite La in E. destruct (ofunc a) eqn:F.
   - destruct (c =? nzero).
-    + inversion E; subst o. cbn [olin].
+    + inversion E; subst o. cbn [Model.olin].
       destruct (dom_sv a W) as [n Dn].
       assert (Hz : eval a (vzero (dim (odom a))) = vscal nzero (eval a (vzero (dim (odom a))))).
       { rewrite <- (olin_hom a W La nzero) by apply repeat_length.
@@ -638,13 +650,27 @@ Fixpoint no_sf_rvec (s : sexpr) : Prop :=
   | SAddC a _ | SCAdd _ a | SSubC a _ | SCSub _ a | SMulC a _ | SCMul _ a | SDivC a _ => no_sf_rvec a
   end.
 
-Theorem flag_complete_partial : forall s o, sleaves_ok s -> build s = Ok o -> no_sf_rvec s ->
+(* [rvec_ok]: every `A * v` in s either has a vector-valued A, or the code keeps the flag *)
+Fixpoint rvec_ok (s : sexpr) : Prop :=
+  match s with
+  | SLeaf _ | SConst _ _ | SZero _ => True
+  | SAdd a b | SSub a b | SMul a b | SPtw a b => rvec_ok a /\ rvec_ok b
+  | SMulV a _ => (v_frvec_lin vt = true \/ sran a <> SF) /\ rvec_ok a
+  | SNeg a | SPow a _ | SAddV a _ | SVAdd _ a | SSubV a _ | SVSub _ a | SVMul _ a
+  | SAddC a _ | SCAdd _ a | SSubC a _ | SCSub _ a | SMulC a _ | SCMul _ a | SDivC a _ => rvec_ok a
+  end.
+Lemma rvec_ok_of_no_sf s : no_sf_rvec s -> rvec_ok s.
+Proof. induction s; cbn [no_sf_rvec rvec_ok]; tauto. Qed.
+Lemma rvec_ok_of_variant s : v_frvec_lin vt = true -> rvec_ok s.
+Proof. intros V; induction s; cbn [rvec_ok]; tauto. Qed.
+
+Lemma flag_complete_gen : forall s o, sleaves_ok s -> build s = Ok o -> rvec_ok s ->
   slin s = true -> olin o = true.
 Proof.
   induction s as [l|d c|d|a IHa b IHb|a IHa b IHb|a IHa b IHb|a IHa|a IHa n|a IHa v|v a IHa|a IHa v
                  |v a IHa|a IHa v|v a IHa|a IHa c|c a IHa|a IHa c|c a IHa|a IHa c|c a IHa|a IHa c
                  |a IHa b IHb];
-    intros o L E NF SL; cbn [build] in E; cbn [sleaves_ok] in L; cbn [no_sf_rvec] in NF;
+    intros o L E NF SL; cbn [Model.build] in E; cbn [sleaves_ok] in L; cbn [rvec_ok] in NF;
     cbn [slin] in SL; try discriminate.
   - inversion E; subst; exact SL.
   - inversion E; subst; exact SL.
@@ -660,9 +686,10 @@ Proof.
   - unbind E. unfold pow_op in E. destruct (n <=? 0)%Z; [discriminate|].
     pose proof (IHa _ L eq_refl NF SL) as Lo. apply (pow_loop_lin _ _ _ _ E Lo Lo).
   - destruct NF as [NR Na]. unbind E. destruct (build_sem _ _ L B) as (Wa & Da & Ra & _).
-    unfold mul_v in E. destruct (in_sp v (odom o0)); [|discriminate]. inversion E; subst o. cbn [olin].
+    unfold mul_v in E. destruct (in_sp v (odom o0)); [|discriminate]. inversion E; subst o. cbn [Model.olin].
     destruct (ofunc o0) eqn:F.
-    + exfalso. apply NR. rewrite <- Ra. apply func_ran; assumption.
+    + destruct NR as [-> | NR]; [apply (IHa _ L eq_refl Na SL)|].
+      exfalso. apply NR. rewrite <- Ra. apply func_ran; assumption.
     + apply (IHa _ L eq_refl Na SL).
   - unbind E. unfold rmul_v in E. pose proof (IHa _ L eq_refl NF SL) as Lo.
     destruct (in_sp v (oran o0)); [inversion E; subst; exact Lo|].
@@ -673,6 +700,16 @@ Proof.
   - unbind E. destruct (c =? nzero); [discriminate|]. destruct (build_sem _ _ L B) as (Wa & _).
     apply (mul_c_lin _ _ _ Wa E (IHa _ L eq_refl NF SL)).
 Qed.
+
+
+Theorem flag_complete_partial : forall s o, sleaves_ok s -> build s = Ok o -> no_sf_rvec s ->
+  slin s = true -> olin o = true.
+Proof. intros s o L E NF. apply (flag_complete_gen s o L E (rvec_ok_of_no_sf s NF)). Qed.
+
+(* the full statement, for the repaired FunctionalRightVectorMult *)
+Theorem flag_complete_repaired : v_frvec_lin vt = true ->
+  forall s o, sleaves_ok s -> build s = Ok o -> slin s = true -> olin o = true.
+Proof. intros V s o L E. apply (flag_complete_gen s o L E (rvec_ok_of_variant s V)). Qed.
 
 (* ------------------------------------------------------------------ *)
 (* the concrete pool of C04/Model.v meets the leaf premise (so it is satisfiable, and the
